@@ -533,6 +533,7 @@ type cellMod struct {
 	fields  map[int]bool
 	typ     types.Type
 	backing bool // the cell is a backing array (content sort: Array idx elem)
+	rawSort string // content sort given directly (map presence / value tables)
 }
 
 // loopModSet returns what may be written inside the natural loop of header h,
@@ -645,6 +646,38 @@ func (f *frame) loopModSet(h *ssa.BasicBlock, be map[[2]int]bool) (map[string]*m
 		}
 		touch(elem, true)
 	}
+	// mapWrite: an entry of map value mv is written or removed. When mv is defined
+	// outside the loop only that map's tables are havocked, otherwise the tables of
+	// every map of that type.
+	mapWrite := func(mv ssa.Value, depth int) {
+		hp, hv, _, ok := e.mapHeaps(mv.Type())
+		if !ok {
+			return
+		}
+		inv := false
+		if depth == 0 {
+			switch x := mv.(type) {
+			case *ssa.Parameter, *ssa.FreeVar:
+				inv = true
+			case ssa.Instruction:
+				inv = !body[x.Block()]
+			}
+		}
+		val, known := f.vals[mv]
+		for _, n := range []string{hp, hv} {
+			if mod[n] == nil {
+				mod[n] = &modInfo{cells: map[string]*cellMod{}}
+			}
+			if inv && known {
+				if mod[n].cells[val.term] == nil {
+					inner := strings.TrimSuffix(strings.TrimPrefix(e.hsort[n], "(Array Int "), ")")
+					mod[n].cells[val.term] = &cellMod{whole: true, rawSort: inner}
+				}
+			} else {
+				mod[n].whole = true
+			}
+		}
+	}
 	var root func(v ssa.Value, field int, depth int)
 	root = func(v ssa.Value, field int, depth int) {
 		switch a := v.(type) {
@@ -732,14 +765,7 @@ func (f *frame) loopModSet(h *ssa.BasicBlock, be map[[2]int]bool) (map[string]*m
 				case *ssa.MakeSlice:
 					touch(v.Type().Underlying().(*types.Slice).Elem(), true)
 				case *ssa.MapUpdate:
-					if hp, hv, _, ok := e.mapHeaps(v.Map.Type()); ok {
-						for _, n := range []string{hp, hv} {
-							if mod[n] == nil {
-								mod[n] = &modInfo{cells: map[string]*cellMod{}}
-							}
-							mod[n].whole = true
-						}
-					}
+					mapWrite(v.Map, depth)
 				case *ssa.Convert:
 					if sl, ok := v.Type().Underlying().(*types.Slice); ok {
 						touch(sl.Elem(), true)
@@ -751,6 +777,11 @@ func (f *frame) loopModSet(h *ssa.BasicBlock, be map[[2]int]bool) (map[string]*m
 							if sl, ok := v.Call.Args[0].Type().Underlying().(*types.Slice); ok {
 								touch(sl.Elem(), true)
 							}
+							if _, ok := v.Call.Args[0].Type().Underlying().(*types.Map); ok {
+								mapWrite(v.Call.Args[0], depth)
+							}
+						case "delete":
+							mapWrite(v.Call.Args[0], depth)
 						}
 						continue
 					}
@@ -902,6 +933,11 @@ func (f *frame) havocLoopHeap(st *State, n string, mi *modInfo) {
 	h := e.heapByName(st, n)
 	for _, cell := range sortedKeys(mi.cells) {
 		cm := mi.cells[cell]
+		if cm.rawSort != "" {
+			nv := e.declare("loopmap", cm.rawSort)
+			h = fmt.Sprintf("(store %s %s %s)", h, cell, nv)
+			continue
+		}
 		if cm.backing {
 			nv := e.declare("looparr", fmt.Sprintf("(Array %s %s)", e.idxSort(), e.sc.sortOf(cm.typ)))
 			h = fmt.Sprintf("(store %s %s %s)", h, cell, nv)
@@ -1356,6 +1392,8 @@ func (f *frame) runBlock(b *ssa.BasicBlock, st *State, be map[[2]int]bool, loopO
 				old := e.mapLen(st, m.term)
 				e.assume(reach, fmt.Sprintf("(= %s (ite %s %s %s))", n, present, old, e.idxAdd(old, e.idxLit(1))))
 				f.nopanic("mapassign-nil", "", reach, fmt.Sprintf("(not (= %s 0))", m.term))
+				// execution continues only if the assignment did not panic
+				e.assume(reach, fmt.Sprintf("(not (= %s 0))", m.term))
 				e.mapStore(st, m, f.val(v.Key).term, f.val(v.Value).term, true)
 			}
 			e.setMapLen(st, m.term, n)
